@@ -54,6 +54,15 @@ CHECKS = {
                     "routine of the same map entry and define each called routine once, roles not confusable with "
                     "user names. Correctness of the routine bodies is C06/C11.",
             "note": TB + "; abstract execution models only the statement forms the loops use (else ANALYSIS-ERROR)"},
+    "C06": {"engine": "E+F", "design_ref": "DESIGN.md section 3 C06",
+            "technique": "static analysis: path enumeration of per-argument index counters, normal-form comparison of the two MATLAB type-check builders, role table (unwrap start / nargin adjustment / receiver / .m call shape), structural shape of default expansion, marshalling-table priority, enum-context provenance per role",
+            "text": "Decides that position indexes advance once per argument on every path, that the two MATLAB-side guard "
+                    "builders agree, that per role the C++ unwrap offsets, the expected counts and the .m call shapes are "
+                    "mutually consistent, that default expansion has the peel-from-the-tail / rebuild-from-backup shape, "
+                    "that every arity gets an id, that return shapes are dispatched exhaustively and that one "
+                    "marshalling table drives unwrap and call. One known finding (enum-typed free functions, D26) is "
+                    "recorded. 'k+1 arities for all k' as arithmetic and MATLAB isa semantics are not decided.",
+            "note": TB},
     "C07": {"engine": "G+F", "design_ref": "DESIGN.md section 3 C07",
             "technique": "static analysis: end-anchor and capture-completeness of the grammar, call-graph effect analysis (may-reject before first write on all paths), handler audit",
             "text": "Decides: the parse root is end-anchored and is the only parse entry; every accepted token "
@@ -152,5 +161,4 @@ CHECKS = {
             "note": TB},
 }
 PENDING = "checker not implemented yet in this revision (see DESIGN.md section 3 for the planned static rules)"
-NOT_APPLICABLE = {p: PENDING for p in
-                  ["C06"]}
+NOT_APPLICABLE = {}
